@@ -8,6 +8,8 @@ package c18
 
 import (
 	"fmt"
+	"sort"
+	"strings"
 
 	"pgregory.net/rapid"
 
@@ -19,22 +21,51 @@ var (
 	countClasses = []string{"C0", "C1", "C2", "C", "C10"}
 	countMethods = []string{"m0", "m1", "m2", "m", "m10", "run"}
 	countExtPkgs = []string{"java.util", "org.ext", "x", "org.a", "a.b.c"}
+	// widened pools, each behind its own draw: the default package; names that differ from pooled
+	// ones in case only, names with `_`, `$`, letters outside ASCII, a very long name; enough method
+	// names for models with more than 64 methods
+	countOddClasses  = []string{"c0", "C_0", "$C", "Ç0", "C0C0C0C0C0C0C0C0C0C0C0C0C0C0C0C0C0C0C0C0C0C0C0C0C0C0C0C0C0C0C0C0C0C0C0C0C0C0C0C0"}
+	countOddMethods  = []string{"M", "Run", "m_1", "$m", "mé", "M0", "m0m0m0m0m0m0m0m0m0m0m0m0m0m0m0m0m0m0m0m0m0m0m0m0m0m0m0m0m0m0m0m0m0m0m0m0m0m0m0m0"}
+	countManyMethods = []string{"m3", "m4", "m5", "m6", "m7", "m8", "m9", "m11", "m12", "stop", "start"}
 )
+
+// countPools is what one model draws its names from.
+type countPools struct {
+	pkgs, classes, methods []string
+	maxClasses, maxMethods int
+}
+
+func drawCountPools(t *rapid.T) countPools {
+	p := countPools{pkgs: countPkgs, classes: countClasses, methods: countMethods, maxClasses: 5, maxMethods: 4}
+	if rapid.IntRange(0, 3).Draw(t, "defaultPackage") == 3 {
+		p.pkgs = append(append([]string{}, countPkgs...), "", "")
+	}
+	if rapid.IntRange(0, 3).Draw(t, "oddNames") == 3 {
+		p.classes = append(append([]string{}, countClasses...), countOddClasses...)
+		p.methods = append(append([]string{}, countMethods...), countOddMethods...)
+	}
+	if rapid.IntRange(0, 11).Draw(t, "big") == 11 {
+		p.methods = append(append([]string{}, p.methods...), countManyMethods...)
+		p.maxClasses, p.maxMethods = 24, 10
+	}
+	return p
+}
 
 type countRef struct{ ci, mi int }
 
 func genCountModel(t *rapid.T) mgen.Model {
-	nc := rapid.IntRange(1, 5).Draw(t, "nClasses")
+	pools := drawCountPools(t)
+	nc := rapid.IntRange(1, pools.maxClasses).Draw(t, "nClasses")
 	// plain: every class has its own simple name (C0, C1, ...) as in mgen; otherwise names
 	// are drawn from a small pool and recur in other packages
 	plain := rapid.IntRange(0, 2).Draw(t, "sharedNames") == 0
 	var m mgen.Model
 	seen := map[string]bool{}
 	for i := 0; i < nc; i++ {
-		pkg := rapid.SampledFrom(countPkgs).Draw(t, "pkg")
+		pkg := rapid.SampledFrom(pools.pkgs).Draw(t, "pkg")
 		name := fmt.Sprintf("C%d", i)
 		if !plain {
-			name = rapid.SampledFrom(countClasses).Draw(t, "class")
+			name = rapid.SampledFrom(pools.classes).Draw(t, "class")
 		}
 		if seen[pkg+"."+name] {
 			continue
@@ -42,7 +73,7 @@ func genCountModel(t *rapid.T) mgen.Model {
 		seen[pkg+"."+name] = true
 		c := mgen.Class{Pkg: pkg, Name: name}
 		used := map[string]bool{}
-		for _, mn := range rapid.SliceOfN(rapid.SampledFrom(countMethods), 0, 4).Draw(t, "methods") {
+		for _, mn := range rapid.SliceOfN(rapid.SampledFrom(pools.methods), 0, pools.maxMethods).Draw(t, "methods") {
 			if !used[mn] { // no overloads: one full name, one method
 				used[mn] = true
 				c.Methods = append(c.Methods, mgen.Method{Name: mn})
@@ -67,14 +98,14 @@ func genCountModel(t *rapid.T) mgen.Model {
 				n = 1
 			}
 			for k := 0; k < n; k++ {
-				m.Classes[ci].Methods[mi].Calls = append(m.Classes[ci].Methods[mi].Calls, drawCountCall(t, m, refs))
+				m.Classes[ci].Methods[mi].Calls = append(m.Classes[ci].Methods[mi].Calls, drawCountCall(t, m, refs, pools))
 			}
 		}
 	}
 	return m
 }
 
-func drawCountCall(t *rapid.T, m mgen.Model, refs []countRef) mgen.Call {
+func drawCountCall(t *rapid.T, m mgen.Model, refs []countRef, pools countPools) mgen.Call {
 	kind := rapid.IntRange(0, 23).Draw(t, "kind")
 	switch {
 	case kind < 12 && len(refs) > 0: // a declared method (possibly the caller itself)
@@ -83,20 +114,108 @@ func drawCountCall(t *rapid.T, m mgen.Model, refs []countRef) mgen.Call {
 		return mgen.Call{Pkg: tc.Pkg, Node: tc.Name, Func: tc.Methods[r.mi].Name}
 	case kind < 15: // a method name of the pool on a declared class: declared there or only elsewhere
 		tc := rapid.SampledFrom(m.Classes).Draw(t, "tclass")
-		return mgen.Call{Pkg: tc.Pkg, Node: tc.Name, Func: rapid.SampledFrom(append([]string{"undeclared"}, countMethods...)).Draw(t, "anyMethod")}
+		return mgen.Call{Pkg: tc.Pkg, Node: tc.Name, Func: rapid.SampledFrom(append([]string{"undeclared"}, pools.methods...)).Draw(t, "anyMethod")}
 	case kind < 18 && len(refs) > 0: // a declared method's class and name under another package
 		r := rapid.SampledFrom(refs).Draw(t, "near")
 		tc := m.Classes[r.ci]
-		return mgen.Call{Pkg: rapid.SampledFrom(append(append([]string{}, countPkgs...), countExtPkgs...)).Draw(t, "otherPkg"), Node: tc.Name, Func: tc.Methods[r.mi].Name}
+		return mgen.Call{Pkg: rapid.SampledFrom(append(append([]string{}, pools.pkgs...), countExtPkgs...)).Draw(t, "otherPkg"), Node: tc.Name, Func: tc.Methods[r.mi].Name}
 	case kind < 20: // external
 		return mgen.Call{Pkg: rapid.SampledFrom(countExtPkgs).Draw(t, "xpkg"), Node: rapid.SampledFrom([]string{"Ext", "C0", "C"}).Draw(t, "xclass"), Func: rapid.SampledFrom([]string{"run", "m0"}).Draw(t, "xmethod")}
 	case kind < 21: // empty receiver
 		return mgen.Call{Pkg: "", Node: "", Func: rapid.SampledFrom([]string{"orphan", "m0"}).Draw(t, "orphan")}
 	case kind < 22: // receiver without package
 		tc := rapid.SampledFrom(m.Classes).Draw(t, "bare")
-		return mgen.Call{Pkg: "", Node: tc.Name, Func: rapid.SampledFrom(countMethods).Draw(t, "bareMethod")}
+		return mgen.Call{Pkg: "", Node: tc.Name, Func: rapid.SampledFrom(pools.methods).Draw(t, "bareMethod")}
 	default: // constructor form
 		tc := rapid.SampledFrom(m.Classes).Draw(t, "tclass")
 		return mgen.Call{Pkg: tc.Pkg, Node: tc.Name, Func: ""}
 	}
+}
+
+// closureModel declares every method that m calls (receiver and name given): one class per
+// called receiver, and every one of its methods calls all called names once.
+func closureModel(m mgen.Model) mgen.Model {
+	type key struct{ pkg, node string }
+	methods := map[key]map[string]bool{}
+	var all []mgen.Call
+	seen := map[string]bool{}
+	for _, cl := range m.Classes {
+		for _, mm := range cl.Methods {
+			for _, call := range mm.Calls {
+				if call.Node == "" || call.Func == "" || seen[call.Full()] {
+					continue
+				}
+				seen[call.Full()] = true
+				all = append(all, mgen.Call{Pkg: call.Pkg, Node: call.Node, Func: call.Func})
+				k := key{call.Pkg, call.Node}
+				if methods[k] == nil {
+					methods[k] = map[string]bool{}
+				}
+				methods[k][call.Func] = true
+			}
+		}
+	}
+	sort.Slice(all, func(i, j int) bool { return all[i].Full() < all[j].Full() })
+	var keys []key
+	for k := range methods {
+		keys = append(keys, k)
+	}
+	sort.Slice(keys, func(i, j int) bool {
+		if keys[i].pkg != keys[j].pkg {
+			return keys[i].pkg < keys[j].pkg
+		}
+		return keys[i].node < keys[j].node
+	})
+	var out mgen.Model
+	for _, k := range keys {
+		cl := mgen.Class{Pkg: k.pkg, Name: k.node}
+		var names []string
+		for n := range methods[k] {
+			names = append(names, n)
+		}
+		sort.Strings(names)
+		for _, n := range names {
+			cl.Methods = append(cl.Methods, mgen.Method{Name: n, Calls: all})
+		}
+		out.Classes = append(out.Classes, cl)
+	}
+	return out
+}
+
+// countNameLabels: evidence labels for the widened name pools.
+func countNameLabels(m mgen.Model, want map[string]int) []string {
+	set := map[string]bool{}
+	lower := map[string]string{}
+	for _, cl := range m.Classes {
+		if cl.Pkg == "" {
+			set["class_in_default_package"] = true
+		}
+		for _, mm := range cl.Methods {
+			full := cl.Full() + "." + mm.Name
+			if other, ok := lower[strings.ToLower(full)]; ok && other != full {
+				set["method_names_differ_in_case_only"] = true
+			}
+			lower[strings.ToLower(full)] = full
+			if nonASCII(full) || strings.ContainsAny(full, "$_") {
+				set["name_with_dollar_underscore_or_non_ascii_letter"] = true
+			}
+			if len(mm.Name) > 64 || len(cl.Name) > 64 {
+				set["name>64"] = true
+			}
+		}
+	}
+	for k := range want {
+		if strings.HasPrefix(k, ".") {
+			set["counted_method_in_default_package"] = true
+		}
+		if nonASCII(k) || strings.ContainsAny(k, "$_") {
+			set["counted_method_with_dollar_underscore_or_non_ascii_letter"] = true
+		}
+	}
+	var out []string
+	for k := range set {
+		out = append(out, k)
+	}
+	sort.Strings(out)
+	return out
 }
